@@ -5,7 +5,7 @@ import warnings
 import numpy as np
 import torch
 
-from qv import dispatchmon, programs
+from qv import dispatchmon, fp, programs
 
 META = dict(
     level="exploration",
@@ -50,8 +50,21 @@ def crash_class(a, w, kind):
     return False
 
 
+def shares_storage(t, a):
+    """True when two quantized tensors hold an inner tensor (codes or scale) in the same storage."""
+    try:
+        pa = {v.untyped_storage().data_ptr() for v in fp.leaves(fp.unwrap_param(a))[0].values()}
+        pt = {v.untyped_storage().data_ptr() for v in fp.leaves(fp.unwrap_param(t))[0].values()}
+        return bool(pa & pt)
+    except Exception:
+        return False
+
+
 def run_program(ctx, mon, oq, rng, wd, depth, names, directed=None):
     pool = programs.Pool(oq, rng, wd)
+    roots = {}  # id(tensor) -> alias root in the *float* program (views share the root of their source)
+    producer = {}  # id(tensor) -> template that produced it
+    payload = {}  # id(tensor) -> payload-sharing root: rescaling ops return the operand's codes under a new scale
     shape = programs.rshape(rng)
     if directed is not None and directed[0] in RANK_OF:
         shape = programs.rshape(rng, int(rng.choice(RANK_OF[directed[0]])))
@@ -72,6 +85,8 @@ def run_program(ctx, mon, oq, rng, wd, depth, names, directed=None):
                     pass
         for t, k in base:
             pool.add(t, k)
+            roots[id(t)] = id(t)
+            payload[id(t)] = id(t)
         for step in range(depth):
             name = directed[0] if (directed is not None and step == 0) else names[rng.integers(len(names))]
             a = pool.pick()
@@ -85,9 +100,37 @@ def run_program(ctx, mon, oq, rng, wd, depth, names, directed=None):
             mon.step_info = dict(template=name, step=step, operand=dispatchmon.kind_of(a), shape=list(a.shape),
                                  dtype=str(wd))
             before = ctx.counters.get("steps_with_quantized_result", 0)
+            live = [(t, fp.tensor_fp(t)) for t, _ in pool.items]
+            raised = False
+            inplace_root = None
+            if name == "copy_" and rng.random() < 0.35 and hasattr(a, "qtype") and type(a).__name__ == "QBytesTensor" \
+                    and a.axis is None:
+                # in-place write into a live tensor: in the float program only its aliases (views) change
+                src = pool.oq.quantize_activation(pool.randn(tuple(a.shape), mag=float(a._scale.abs()) * 300), a.qtype,
+                                                  (a._scale.detach() * 3.0).clone())
+                thunk = lambda: a.copy_(src)  # noqa
+                inplace_root = roots.get(id(a), id(a))
+                inplace_payload = payload.get(id(a), id(a))
+                ctx.count("inplace_writes_into_live_tensors")
             try:
                 out = thunk()
             except Exception:
+                raised = True
+            if inplace_root is not None:
+                live = [(t, f0) for t, f0 in live if roots.get(id(t), id(t)) != inplace_root]
+            # No template writes into a tensor of the pool (copy_ destinations are fresh copies): whatever the step
+            # did, every live tensor must still hold the same bits (aliasing between a result and its source shows here)
+            ctx.count("live_tensor_purity_checks", len(live))
+            for t, f0 in live:
+                if fp.tensor_fp(t) != f0:
+                    ctx.violation(dict(prop="C05", kind="live_tensor_modified_by_unrelated_step", template=name,
+                                       operand=dispatchmon.coarse([dispatchmon.kind_of(t) or "plain"]),
+                                       path="live_destination" if inplace_root is not None else "fresh_destination",
+                                       mechanism="shares_inner_tensor_with_destination" if (
+                                           inplace_root is not None and shares_storage(t, a)) else "other"),
+                                  dict(step=mon.step_info, modified=dispatchmon.describe(t)))
+                    mon.taint(t)
+            if raised:
                 ctx.count("steps_raised")
                 seq.append((name, dispatchmon.kind_of(a), "raised"))
                 continue
@@ -99,6 +142,12 @@ def run_program(ctx, mon, oq, rng, wd, depth, names, directed=None):
                                                                                          torch.bfloat16):
                     if torch.isfinite(o.dequantize() if hasattr(o, "qtype") else o).all():
                         pool.add(o, name)
+                        producer[id(o)] = name
+                        # views alias their source in the float program; everything else is a fresh tensor
+                        viewlike = name in programs.SHAPE_OPS or name in ("detach", "copy_", "contiguous", "to_dtype", "to_cpu")
+                        roots[id(o)] = roots.get(id(a), id(a)) if viewlike else id(o)
+                        payload[id(o)] = payload.get(id(a), id(a)) if (viewlike or name in (
+                            "mul_scalar", "torch.mul_scalar", "div_scalar", "neg")) else id(o)
     mon.step_info = None
     return seq
 
